@@ -4,6 +4,7 @@ import os, subprocess, tempfile, shutil, re, time, json
 
 ROOT = os.path.dirname(os.path.dirname(os.path.abspath(__file__)))
 BOUNDS = {
+    "bounded_reported_stats_match_index_after_failed_cleanup": "one store, three histories (overwrite / remove / range removal) whose released blob cannot be unlinked",
     "bounded_recompute_stats_small_scope": "every assignment of 4 keys to {absent, 3 hashes} (256 states)",
     "bounded_remove_range_bounds": "5 present keys in 0..6; every pair of Included/Excluded/Unbounded bounds with values 0..7",
     "bounded_blob_path_decoder_total_and_bijective": "300 random hashes; all 3-way splits at offsets 0..8 x {lower, upper, one junk char}; 6 degenerate paths",
